@@ -202,6 +202,48 @@ pub static C12: CheckSpec = CheckSpec {
     assumptions: &["the scripted handler reports, like the real one, only records whose address is absent or equals the source, and never a record older than (or a different one with the same seq as) the one the service knows", "'every entry was the subject of an Established or add_enr' is checked over the whole run (not since its last absence)"],
 };
 
+pub static C14: CheckSpec = CheckSpec {
+    id: "C14",
+    level: "exploration",
+    scenarios: &[Scenario { name: "serve-findnode-ping", weight: 1, run: worlds::s_serve::run_c14 }],
+    runs_quick: 12_000,
+    runs_thorough: 600_000,
+    cap_quick_s: 75,
+    cap_thorough_s: 1200,
+    rule: "one run = a real service whose table holds 2-61 real signed records (padded to the 300-byte limit in two of three runs), max_nodes_response in {1,4,16,32,48}; 3-14 requests: FINDNODE with 0-6 distances (0, 256..249, random; duplicates, unsorted), request ids of 0-8 bytes, requesters that are table entries or strangers, PINGs from ports incl. 0; the HandlerIn::Response values are compared with the table read back through the public API and every packet is encrypted (AES-GCM) and encoded with the real codec to measure its wire size; every run is non-trivial; distinct = distinct event-log hash",
+    components_real: REAL_SERVICE,
+    components_stub: STUB_SERVICE,
+    assumptions: &["log2 distances of the oracle are computed from raw id bytes", "when more entries are eligible than max_nodes_response any subset of that size is accepted (one fewer when the requester itself was among the selected ones)"],
+};
+
+pub static C17: CheckSpec = CheckSpec {
+    id: "C17",
+    level: "exploration",
+    scenarios: &[Scenario { name: "ip-votes", weight: 1, run: worlds::s_serve::run_c17 }],
+    runs_quick: 8_000,
+    runs_thorough: 400_000,
+    cap_quick_s: 75,
+    cap_thorough_s: 1200,
+    rule: "one run = a real service in IPv4 mode with enr_peer_update_min 2..6, vote_duration 8/30/120 s, ping interval 1 s, 2-12 voters established as outgoing or incoming peers; 10-70 rounds in which a held PING is answered with a PONG carrying that voter's current opinion among three candidate addresses (fewer liars than the minimum vote a third address), voters change opinion, time passes (up to a whole vote duration); the local record is read after every PONG: a change to an address must be backed, at that moment, by at least the minimum number of unexpired latest votes of eligible (outgoing) peers and every rival must stay below round(0.7 x that count); seq increases, the record verifies, one SocketUpdated event per change; non-trivial = at least one eligible vote was cast; distinct = distinct event-log hash",
+    components_real: REAL_SERVICE,
+    components_stub: STUB_SERVICE,
+    assumptions: &["IPv4 mode, where only connected outgoing table peers are eligible voters; all PINGs are eventually answered so voters stay connected", "one run in four enables the NAT check (auto_nat_listen_duration), whose removal of the address is not a PONG-caused change and is only checked for seq/signature"],
+};
+
+pub static C20: CheckSpec = CheckSpec {
+    id: "C20",
+    level: "exploration",
+    scenarios: &[Scenario { name: "talk", weight: 1, run: worlds::s_serve::run_c20 }],
+    runs_quick: 40_000,
+    runs_thorough: 2_000_000,
+    cap_quick_s: 75,
+    cap_thorough_s: 1200,
+    rule: "one run = 1-150 TALKREQs from 5 peers delivered to a real service; the application (harness) takes the TalkRequest objects from the event stream and, in tape order, responds, drops or holds them; stream modes: drained, never drained (fills up), receiver dropped; in one run of three the service is shut down at a chosen point and the (scripted) handler goes away with it, after which held requests are responded to or dropped; while running every TALKREQ must get exactly one TALKRESP with its id to its address carrying the application's payload or an empty one; after shutdown respond() must return an error and nothing may panic; every run is non-trivial; distinct = distinct event-log hash",
+    components_real: REAL_SERVICE,
+    components_stub: STUB_SERVICE,
+    assumptions: &["after shutdown the scripted handler closes its receiving end, as the real handler task does when it exits"],
+};
+
 pub static C13: CheckSpec = CheckSpec {
     id: "C13",
     level: "exploration",
@@ -264,7 +306,7 @@ pub static C03: CheckSpec = CheckSpec {
     assumptions: &["a challenge's expiry is request_timeout after the WHOAREYOU or after the last delivered handshake that may have re-armed it (invalid-signature re-insert)", "the oracle trusts the crate's id-signature verification to attribute an accepted handshake to the challenge it answers"],
 };
 
-pub static ALL: &[&CheckSpec] = &[&C01, &C02, &C03, &C04, &C07, &C08, &C09, &C10, &C11, &C12, &C13, &C15, &C16, &C18, &C19];
+pub static ALL: &[&CheckSpec] = &[&C01, &C02, &C03, &C04, &C07, &C08, &C09, &C10, &C11, &C12, &C13, &C14, &C15, &C16, &C17, &C18, &C19, &C20];
 
 pub fn lookup(id: &str) -> Option<&'static CheckSpec> {
     ALL.iter().copied().find(|c| c.id.eq_ignore_ascii_case(id))
